@@ -240,6 +240,7 @@ fn get_swap_transactions<C: ContentAddrStore>(state: &UnsealedState<C>) -> Vec<T
             state.pools.get(&pool_key)?; // ensure that pool key points to a valid pool
             (tx.outputs[0].denom == pool_key.left() || tx.outputs[0].denom == pool_key.right())
                 .then_some(())?; // ensure that the first output is either left or right
+            (tx.outputs[0].value.0 > 0).then_some(())?; // a request worth nothing is not a request (and would divide by a zero total)
             Some(tx)
         })
         .collect::<Vec<Transaction>>()
@@ -343,6 +344,8 @@ fn get_deposit_transactions<C: ContentAddrStore>(state: &UnsealedState<C>) -> Ve
                 && state.coins.get_coin(tx.output_coinid(1)).is_some())
             .then_some(())?;
             let pool_key = PoolKey::from_bytes(&tx.data)?;
+            // both sides must be worth something: a zero side would divide by a zero total and create a pool with a zero reserve
+            (tx.outputs[0].value.0 > 0 && tx.outputs[1].value.0 > 0).then_some(())?;
             (tx.outputs[0].denom == pool_key.left() && tx.outputs[1].denom == pool_key.right())
                 .then_some(tx)
         })
@@ -425,6 +428,7 @@ fn get_withdrawal_transactions<C: ContentAddrStore>(state: &UnsealedState<C>) ->
             .then_some(())?;
             let pool_key = PoolKey::from_bytes(&tx.data)?;
             state.pools.get(&pool_key)?;
+            (tx.outputs[0].value.0 > 0).then_some(())?; // redeeming nothing is not a request (and would divide by a zero total)
             (tx.outputs[0].denom == pool_key.liq_token_denom()).then_some(tx)
         })
         .collect::<Vec<_>>()
